@@ -118,12 +118,27 @@ def damage(data, how):
 
 
 def load_and_next(load_dir, fmt, files, projs, next_lines):
-    """Start a fresh gateway on the given three files; then one more state change, save, load."""
-    main = os.path.join(load_dir, f"state.{fmt}")
+    """Start a fresh gateway on the given three files; then one more state change, save, load — with the
+    persistence file named as an absolute path, relative to the working directory, and through a symbolic
+    link to its directory: the three must agree (the first differing outcome is returned)."""
+    first = None
+    for how in (0, 1, 2):
+        main = os.path.join(load_dir, f"state.{fmt}")
+        with pu.spelled(main, how) as named:
+            got = _load_and_next(main, named, files, projs, next_lines)
+        if first is None:
+            first = got
+        elif got != first:
+            cls, after, nxt = got
+            return f"{cls}(path spelling {how})", after, nxt
+    return first
+
+
+def _load_and_next(main, named, files, projs, next_lines):
     pu.put(main, files["main"])
     pu.put(main + ".bak", files["bak"])
     pu.put(pu.tmp_name(main), files["tmp"])
-    gw = pu.make_gateway("2.2", persistence_file=main)
+    gw = pu.make_gateway("2.2", persistence_file=named)
     exc = None
     try:
         gw.tasks.persistence.safe_load_sensors()
